@@ -104,7 +104,14 @@ def run(ctx):
         raise Infra("V2FLazyInit model violated: %s" % (r.invariant or r.error))
     ctx.require_clean(r, "E-v2f")
     ctx.add_tlc_counts(r)
-    ctx.stage("E-v2f", kind="E", distinct=r.distinct)
+    proof = {}
+    if not quick:
+        # the same invariants for ANY set of readers, by the TLA+ proof system (about the design; never a verdict)
+        ok, nobl, tail = ctx.tlaps("v2f-proof", "conc/V2FLazyInitProof")
+        proof = {"tlaps_proved": ok, "obligations": nobl}
+        if not ok:
+            vlib.log("  (the unbounded proof did not go through here; the bounded model checking above stands)\n" + tail[-400:])
+    ctx.stage("E-v2f", kind="E", distinct=r.distinct, **proof)
     r = ctx.tlc("E-cell", "conc/SharedCellMax", CELL_CFG, workers=4, timeout=600)
     if r.invariant:
         raise Infra("SharedCellMax model violated: %s" % r.invariant)
